@@ -288,7 +288,7 @@ def getLink (b : Basic) (name : Name) : Option Lnk := (b.links.find? (·.1 = nam
 /-- `updateEstimatedSize` delta of one link in the mode in force -/
 def delta (g : Globals) (b : Basic) (name : Name) (l : Lnk) : Int :=
   let mode := b.s.effMode g
-  if mode = 2 then 0 else linkSizeIn mode (nameLen name) l
+  if mode = 1 ∨ mode = 0 then linkSizeIn mode (nameLen name) l else 0
 
 /-- `RemoveChild`; `none` = os.ErrNotExist -/
 def remove (g : Globals) (b : Basic) (name : Name) : Option Basic :=
